@@ -157,7 +157,13 @@ class String(Object, str):
 
     def __new__(cls, s=None, brackets=None):
         value = super().__new__(cls, s)
-        if brackets is not None and f"]{brackets}]" in value:
+        if brackets is not None and (
+            # The closing delimiter, possibly completed by the end of
+            # the content, mustn't occur early.
+            f"]{brackets}]" in value + f"]{brackets}"
+            # The reader turns carriage returns into newlines.
+            or "\r" in value
+        ):
             raise ValueError(f"Syntactically illegal bracket string: {s!r}")
         value.brackets = brackets
         return value
